@@ -80,3 +80,80 @@ Proof. exact @forward_order_independent_gen. Qed.
 Print Assumptions C14_solver_regenerated.
 Print Assumptions C14_changed_flag_accumulates.
 Print Assumptions C14_regenerated_schedule_independent.
+
+(* ------------------------------------------------------------------------------------------------------------
+   Extension (joint pass over all keys): theorems from Lemmas/JointGenLemmas.v and Lemmas/JointTotal.v.  tealer iterates
+   ONE worklist for all keys of an analysis; the per-key model is related to that joint run here.  *)
+From Coq Require Import String List NArith ZArith Bool Arith.
+From Tealer Require Import JointGenLemmas JointTotal.
+
+(* any two runs of the two passes, with any worklist orders and any amount of re-processing triggered by other keys, end in the same sets *)
+Theorem C14_passes_run_order_independent :
+      forall (T : Type) (t_eqb : T -> T -> bool) (univ null : T) (union inter : T -> T -> T)
+         (single : Syntax.instr -> nat -> list StackAst.sval -> T * T) (f : Analysis.func)
+         (leq : T -> T -> Prop),
+       (forall a : T, leq a a) ->
+       (forall a b c : T, leq a b -> leq b c -> leq a c) ->
+       (forall a b : T, t_eqb a b = true <-> leq a b /\ leq b a) ->
+       (forall a a' b b' : T, leq a a' -> leq b b' -> leq (union a b) (union a' b')) ->
+       (forall a a' b b' : T, leq a a' -> leq b b' -> leq (inter a b) (inter a' b')) ->
+       (forall a : T, leq null a) ->
+       forall (blockc : nat -> option T) (wl1 wl2 wl3 wl4 : list nat) (ro1 ro2 lo1 lo2 : Analysis.state T),
+       SolverLemmas.cover_prev_P f ->
+       SolverLemmas.cover_ret_P f ->
+       SolverLemmas.cover_next_P f ->
+       SolverLemmas.cover_call_P f ->
+       (forall b : nat, In b (SolverLemmas.ids f) -> In b wl1) ->
+       (forall b : nat, In b (SolverLemmas.ids f) -> In b wl2) ->
+       (forall (b : nat) (xb : Cfg.block),
+        Analysis.fblock f b = Some xb -> Analysis.leaf_global f xb = false -> In b wl3) ->
+       (forall (b : nat) (xb : Cfg.block),
+        Analysis.fblock f b = Some xb -> Analysis.leaf_global f xb = false -> In b wl4) ->
+       fwd_run T t_eqb univ null union inter single f blockc wl1 (SolverLemmas.fwd_st0 T null f) ro1 ->
+       fwd_run T t_eqb univ null union inter single f blockc wl2 (SolverLemmas.fwd_st0 T null f) ro2 ->
+       bwd_run T t_eqb null union inter f (Analysis.lookup T ro1) wl3 (SolverLemmas.bwd_st0 T null f ro1) lo1 ->
+       bwd_run T t_eqb null union inter f (Analysis.lookup T ro2) wl4 (SolverLemmas.bwd_st0 T null f ro2) lo2 ->
+       SolverLemmas.peq T t_eqb ro1 ro2 /\ SolverLemmas.peq T t_eqb lo1 lo2.
+Proof. exact @passes_run_order_independent. Qed.
+
+(* the model list representation is not canonical: a real 9-block program where the joint run and the per-key run hold the same set as different lists (the tool uses Python sets; the correspondence compares sorted lists) *)
+Theorem C14_joint_list_order_refuted :
+      exists (dj : SolverGen.gdict (list Z)) (rs : list (nat * list Z)),
+         map (fun b : Cfg.block => (Cfg.b_idx b, Cfg.b_next b, Cfg.b_prev b))
+           (Analysis.fn_blocks lo_teal_func) =
+         (0, 1 :: nil, nil)
+         :: (1, 2 :: 8 :: nil, 0 :: 4 :: 5 :: nil)
+            :: (8, nil, 7 :: 1 :: nil)
+               :: (2, 3 :: 5 :: nil, 1 :: 3 :: nil)
+                  :: (5, 6 :: 1 :: nil, 2 :: nil)
+                     :: (6, 7 :: nil, 5 :: 7 :: nil)
+                        :: (7, 8 :: 6 :: nil, 6 :: nil)
+                           :: (3, 4 :: 2 :: nil, 2 :: nil) :: (4, 1 :: nil, 3 :: nil) :: nil /\
+         RunGen.run_analysis_gen (list Z) Domains.zset_eqb gi_univ (fun _ : string => nil)
+           (fun _ : string => Domains.zunion) (fun _ : string => Domains.zinter)
+           (gi_single (Analysis.fn_intcs lo_teal_func)) lo_teal_func ("GroupSize" :: "GroupIndex" :: nil) nil
+           nil 200 (S (Datatypes.length (Analysis.fn_blocks lo_teal_func))) 13 = 
+         Some (Some dj) /\
+         Domains.run_int lo_teal_func 200 true = Analysis.Done rs /\
+         Analysis.lookup (list Z) (SolverGen.ddict_get (list Z) dj "GroupSize") 2 = Some (2%Z :: 4%Z :: nil) /\
+         Analysis.lookup (list Z) rs 2 = Some (4%Z :: 2%Z :: nil) /\
+         SolverGen.ddict_get (list Z) dj "GroupSize" <> rs /\
+         SolverLemmas.peq (list Z) Domains.zset_eqb (SolverGen.ddict_get (list Z) dj "GroupSize") rs.
+Proof. exact @joint_list_order_refuted. Qed.
+
+(* monotonicity of the operations cannot be dropped *)
+Theorem C14_joint_nonmonotone_refuted :
+      exists dj ds : SolverGen.gdict nat,
+         SolverLemmas.cover_prev_P nm_func /\
+         SolverLemmas.cover_ret_P nm_func /\
+         (forall b : nat, In b (SolverLemmas.ids nm_func) -> In b (Analysis.forward_worklist nm_func)) /\
+         nm_forward 100 ("a" :: "b" :: nil) = Some (Some dj) /\
+         nm_forward 100 ("b" :: nil) = Some (Some ds) /\
+         SolverGen.ddict_get nat dj "b" = (0, 2) :: (1, 1) :: (2, 0) :: (3, 0) :: nil /\
+         SolverGen.ddict_get nat ds "b" = (0, 2) :: (1, 1) :: (2, 2) :: (3, 2) :: nil /\
+         ~ SolverLemmas.peq nat Nat.eqb (SolverGen.ddict_get nat dj "b") (SolverGen.ddict_get nat ds "b").
+Proof. exact @joint_nonmonotone_refuted. Qed.
+
+Print Assumptions C14_passes_run_order_independent.
+Print Assumptions C14_joint_list_order_refuted.
+Print Assumptions C14_joint_nonmonotone_refuted.
